@@ -152,8 +152,11 @@ pub struct World {
     pub is_probe: bool,
     /// wall-clock jumps: (interaction number, delta ns)
     pub jumps: Vec<(u64, i128)>,
+    pub jump_ticks: u64,
 }
 
+/// virtual time saturates here (~146 years): far-future timers must not overflow the clock
+pub const VT_MAX: u64 = 1 << 62;
 pub const MS: u64 = 1_000_000;
 pub const SEC: u64 = 1_000_000_000;
 
@@ -197,6 +200,7 @@ impl World {
             probe_capture: None,
             is_probe: false,
             jumps: Vec::new(),
+            jump_ticks: 0,
         }
     }
 
@@ -206,7 +210,7 @@ impl World {
 
     /// monotonic offset (ns from the simulator base) of the current boot
     pub fn mono_off(&self) -> i64 {
-        (self.vt - self.boot_vt) as i64 + 5 * SEC as i64
+        ((self.vt - self.boot_vt).min(VT_MAX) as i64).saturating_add(5 * SEC as i64)
     }
 
     pub fn rec(&mut self, kind: Kind) {
@@ -249,8 +253,14 @@ impl World {
     /// Register an interaction (a crash point). Returns Some(label-of-crash) if the crash lands here.
     pub fn interaction(&mut self, label: &str) -> bool {
         self.interactions += 1;
-        if !self.jumps.is_empty() {
-            let n = self.interactions;
+        // wall-clock jumps are keyed to non-storage interactions, so that a differential twin
+        // (storage failures on/off, which changes how many storage operations happen) sees the
+        // jump at the same point of the flow
+        if !label.contains("/disk.") {
+            self.jump_ticks += 1;
+        }
+        if !self.jumps.is_empty() && !label.contains("/disk.") {
+            let n = self.jump_ticks;
             let due: Vec<i128> = self.jumps.iter().filter(|(at, _)| *at == n).map(|(_, d)| *d).collect();
             if !due.is_empty() {
                 self.jumps.retain(|(at, _)| *at != n);
@@ -289,7 +299,7 @@ impl World {
                     }
                 }
             };
-            let t = self.vt.saturating_add(d);
+            let t = self.vt.saturating_add(d).min(VT_MAX);
             self.push(t, 0, What::Complete(id));
         }
         // release control requests that wait for this kind of operation
@@ -303,7 +313,7 @@ impl World {
             }
         });
         for tr in fire {
-            let t = self.vt + tr.delay;
+            let t = self.vt.saturating_add(tr.delay).min(VT_MAX);
             self.push(t, 1, What::ClientInvoke(tr.client, tr.req));
         }
         (id, label)
